@@ -1,0 +1,22 @@
+//! Read-only accessor to the compiled circuits (feature `verif-hooks`).
+
+use crate::bdd_arithmetic::GetBitCircuitInfo;
+
+/// The statically compiled u32 circuits, exactly as the word operations use them.
+pub fn u32_circuits() -> Vec<(&'static str, &'static dyn GetBitCircuitInfo)> {
+    use super::circuits::u32 as c;
+    vec![
+        ("add", &c::add_codegen::OUTPUT_CIRCUITS as &dyn GetBitCircuitInfo),
+        ("sub", &c::sub_codegen::OUTPUT_CIRCUITS as &dyn GetBitCircuitInfo),
+        ("sll", &c::sll_codegen::OUTPUT_CIRCUITS as &dyn GetBitCircuitInfo),
+        ("srl", &c::srl_codegen::OUTPUT_CIRCUITS as &dyn GetBitCircuitInfo),
+        ("sra", &c::sra_codegen::OUTPUT_CIRCUITS as &dyn GetBitCircuitInfo),
+        ("slt", &c::slt_codegen::OUTPUT_CIRCUITS as &dyn GetBitCircuitInfo),
+        ("sltu", &c::sltu_codegen::OUTPUT_CIRCUITS as &dyn GetBitCircuitInfo),
+        ("and", &c::and_codegen::OUTPUT_CIRCUITS as &dyn GetBitCircuitInfo),
+        ("or", &c::or_codegen::OUTPUT_CIRCUITS as &dyn GetBitCircuitInfo),
+        ("xor", &c::xor_codegen::OUTPUT_CIRCUITS as &dyn GetBitCircuitInfo),
+        ("identity", &c::identity_codgen::OUTPUT_CIRCUITS as &dyn GetBitCircuitInfo),
+    ]
+}
+
